@@ -25,6 +25,9 @@ pub struct Case {
     /// extra power of sqrt2 multiplied into the scalar (magnitudes up to the ends of f64's range)
     #[serde(default)]
     pub scalar_pow: i32,
+    /// 0 strings only, 1 also write_graph/read_graph through a file, 2 also the JsonGraph value
+    #[serde(default)]
+    pub route: u8,
 }
 
 struct SG {
@@ -264,6 +267,57 @@ fn check_roundtrip<G: GraphLike, H: GraphLike + 'static>(
         guarded(&format!("{name}: encode_graph"), || quizx::json::encode_graph(&g))?
             .map_err(|e| format!("{name}: encode_graph failed: {e}"))?
     };
+    // the other public routes must produce / accept the same document
+    if !via_serde && c.route % 3 == 1 {
+        // through a file
+        let path = super::c03::tmp_path("c13");
+        let w = guarded(&format!("{name}: write_graph"), || quizx::json::write_graph(&g, &path));
+        let back = w.and_then(|r| {
+            r.map_err(|e| format!("{name}: write_graph failed: {e}"))?;
+            let ftext = std::fs::read_to_string(&path).map_err(|e| format!("harness: {e}"))?;
+            let a: serde_json::Value = serde_json::from_str(&ftext).map_err(|e| format!("{name}: write_graph wrote invalid JSON: {e}"))?;
+            let b: serde_json::Value = serde_json::from_str(&text).map_err(|e| format!("{name}: encode_graph wrote invalid JSON: {e}"))?;
+            if a != b {
+                return Err(format!("{name}: write_graph and encode_graph produce different documents"));
+            }
+            let h2 = guarded(&format!("{name}: read_graph"), || quizx::json::read_graph::<H>(&path))?
+                .map_err(|e| format!("{name}: read_graph failed: {e}"))?;
+            let h1 = quizx::json::decode_graph::<H>(&text).map_err(|e| format!("{name}: decode_graph failed: {e}"))?;
+            let (s1, s2) = (sg_of(&h1), sg_of(&h2));
+            match anchored_iso(&s1, &s2, &|i| s1.phase[i]) {
+                Ok(()) => {}
+                Err(e) if e == "SEARCH-BUDGET" => {}
+                Err(e) => return Err(format!("{name}: read_graph and decode_graph give different graphs for the same document: {e}")),
+            }
+            if h1.scalar() != h2.scalar() {
+                return Err(format!("{name}: read_graph and decode_graph give different scalars for the same document"));
+            }
+            obs.class("route:file");
+            Ok(())
+        });
+        let _ = std::fs::remove_file(&path);
+        back?;
+    }
+    if !via_serde && c.route % 3 == 2 {
+        // the JsonGraph value itself, without serialisation
+        let jg = guarded(&format!("{name}: JsonGraph::from_graph"), || quizx::json::JsonGraph::from_graph(&g))?
+            .map_err(|e| format!("{name}: JsonGraph::from_graph failed: {e}"))?;
+        let h2: H = guarded(&format!("{name}: JsonGraph::to_graph"), || jg.to_graph::<H>())?
+            .map_err(|e| format!("{name}: JsonGraph::to_graph failed: {e}"))?;
+        let h1 = quizx::json::decode_graph::<H>(&text).map_err(|e| format!("{name}: decode_graph failed: {e}"))?;
+        let (s1, s2) = (sg_of(&h1), sg_of(&h2));
+        match anchored_iso(&s1, &s2, &|i| s1.phase[i]) {
+            Ok(()) => {}
+            Err(e) if e == "SEARCH-BUDGET" => {}
+            Err(e) => return Err(format!("{name}: JsonGraph::to_graph without serialisation and decode_graph(encode_graph) give different graphs: {e}")),
+        }
+        // (serde_json prints and parses floats to within an ulp, so no bit equality here)
+        let shift = c.scalar_pow / 2;
+        let (x1, x2) = (read_scalar_shifted(h1.scalar(), shift), read_scalar_shifted(h2.scalar(), shift));
+        scalars_match(&x1, &x2, is_mono(&x1), shift)
+            .map_err(|e| format!("{name}: JsonGraph::to_graph without serialisation and decode_graph(encode_graph) give different scalars: {e}"))?;
+        obs.class("route:value");
+    }
     let h: H = if via_serde {
         // H == hash_graph::Graph here
         let hg: quizx::hash_graph::Graph = guarded(&format!("{name}: serde_json::from_str"), || {
@@ -375,8 +429,9 @@ pub fn def(ctx: &Ctx) -> PropertyDef {
                     1 => -2040i32..=-1800,
                     1 => 1800i32..=2000,
                 ],
+                prop_oneof![3 => Just(0u8), 1 => Just(1u8), 2 => Just(2u8)],
             )
-                .prop_map(|(spec, coords, hboxes, big_phases, in_keys, out_keys, scalar_pow)| Case {
+                .prop_map(|(spec, coords, hboxes, big_phases, in_keys, out_keys, scalar_pow, route)| Case {
                     spec,
                     coords,
                     hboxes,
@@ -384,6 +439,7 @@ pub fn def(ctx: &Ctx) -> PropertyDef {
                     in_keys,
                     out_keys,
                     scalar_pow,
+                    route,
                 })
         }
     };
